@@ -21,7 +21,7 @@ import (
 	"verif/internal/model"
 )
 
-const rule = "cases: (twin pair, type argument, bytes) for 24 parser twin pairs - generic vs fixed-size keys-and-cert readers (compared only on inputs whose certificate declares the fixed reader's key sizes), value- vs pointer-returning readers, destination / router-identity wrappers vs ReadKeysAndCert (compared on key types the wrapper permits), remainder-returning vs exact-length constructors (compared on inputs consumed completely), ReadLeaseSet's destination vs ReadDestinationFromLeaseSet - inputs valid / mutated / arbitrary as in C01; plus builder twins over generated arguments: five ways to make a key certificate, two certificate constructors, NewI2PString vs ToI2PString, NewIntegerFromInt vs EncodeIntN, NewRouterIdentity vs NewRouterIdentityFromKeysAndCert vs NewDestination. Oracle: same acceptance, identical serialisation, identical remainder. Non-trivial: at least one twin accepted (and the input is in the pair's common domain); distinct by (pair, input)."
+const rule = "cases: (twin pair, type argument, bytes) for 24 parser twin pairs - generic vs fixed-size keys-and-cert readers (compared only on inputs whose certificate declares the fixed reader's key sizes), value- vs pointer-returning readers, destination / router-identity wrappers vs ReadKeysAndCert (compared on key types the wrapper permits), remainder-returning vs exact-length constructors (compared on inputs consumed completely), ReadLeaseSet's destination vs ReadDestinationFromLeaseSet - inputs valid / mutated / arbitrary as in C01; plus builder twins over generated arguments: five ways to make a key certificate, two certificate constructors, NewI2PString vs ToI2PString, NewIntegerFromInt vs EncodeIntN, NewRouterIdentity vs NewRouterIdentityFromKeysAndCert vs NewDestination; and builder histories: a CertificateBuilder driven through a generated sequence of 2..8 WithType/WithKeyTypes/WithPayload/Build calls (builder reuse) compared at every Build with the direct constructor on the arguments in effect. Oracle: same acceptance, identical serialisation, identical remainder. Non-trivial: at least one twin accepted (and the input is in the pair's common domain); distinct by (pair, input)."
 
 func TestMain(m *testing.M) { ev.Main(m, "C19", rule) }
 
@@ -326,8 +326,118 @@ func genBuild(t *rapid.T) BuildCase {
 
 var propBuild = &ev.Prop[BuildCase]{Sub: "builders", Quick: 120000, Thorough: 2000000, Gen: genBuild, Check: checkBuild}
 
-func TestRegress(t *testing.T)      { prop.Regress(t); propBuild.Regress(t) }
-func TestReplay(t *testing.T)       { _ = prop.Replay(t) || propBuild.Replay(t) }
+// ---------------------------------------------------------------------------
+// builder histories (stateful): a CertificateBuilder driven through a generated
+// sequence of WithType / WithKeyTypes / WithPayload / Build calls must, at every
+// Build, agree with the direct constructor on the arguments in effect.
+
+type BuilderOp struct {
+	Op      string `json:"op"` // type | keytypes | payload | build
+	A       int    `json:"a"`
+	B       int    `json:"b"`
+	Payload string `json:"payload_hex,omitempty"`
+}
+
+type SeqCase struct {
+	Ops []BuilderOp `json:"ops"`
+}
+
+func checkSeq(c SeqCase, r *ev.Rec) error {
+	b := certificate.NewCertificateBuilder()
+	// model of the documented semantics
+	ctype := 0
+	var payload []byte
+	lastSetter := "" // "keytypes" or "payload"
+	ks, kc := 0, 0
+	builds := 0
+	for i, op := range c.Ops {
+		switch op.Op {
+		case "type":
+			if _, err := b.WithType(uint8(op.A)); err == nil {
+				ctype = op.A
+			} else if op.A >= 0 && op.A <= 5 {
+				return fmt.Errorf("step %d: WithType(%d) rejected a valid type: %v", i, op.A, err)
+			}
+		case "keytypes":
+			if _, err := b.WithKeyTypes(op.A, op.B); err == nil {
+				ctype, lastSetter, ks, kc = 5, "keytypes", op.A, op.B
+			} else if op.A >= 0 && op.B >= 0 {
+				return fmt.Errorf("step %d: WithKeyTypes(%d,%d) rejected: %v", i, op.A, op.B, err)
+			}
+		case "payload":
+			payload = ev.UnH(op.Payload)
+			b.WithPayload(payload)
+			lastSetter = "payload"
+		case "build":
+			got, gerr := b.Build()
+			var want *certificate.Certificate
+			var werr error
+			switch lastSetter {
+			case "keytypes":
+				if ctype != 5 {
+					continue // WithType after WithKeyTypes: semantics not documented, not compared
+				}
+				pl, perr := certificate.BuildKeyTypePayload(ks, kc)
+				if perr != nil {
+					continue // codes above 65535: outside BuildKeyTypePayload's domain
+				}
+				want, werr = certificate.NewCertificateWithType(5, pl)
+			case "payload":
+				want, werr = certificate.NewCertificateWithType(uint8(ctype), payload)
+				if ctype == 5 && len(payload) == 0 {
+					continue // the builder documents that a KEY certificate needs key types or a payload
+				}
+			default:
+				if ctype == 5 {
+					continue
+				}
+				want, werr = certificate.NewCertificateWithType(uint8(ctype), nil)
+			}
+			builds++
+			if (gerr == nil) != (werr == nil) {
+				return fmt.Errorf("step %d: Build() error=%v but the direct constructor on the arguments in effect (type %d, last setter %q) error=%v", i, gerr, ctype, lastSetter, werr)
+			}
+			if gerr == nil && !bytes.Equal(got.Bytes(), want.Bytes()) {
+				return fmt.Errorf("step %d: Build() = % x, the direct constructor on the arguments in effect (type %d, last setter %q, key types %d/%d) gives % x", i, got.Bytes(), ctype, lastSetter, ks, kc, want.Bytes())
+			}
+		}
+	}
+	if builds >= 2 {
+		r.Class("builderseq:reused-builder")
+		r.NonTrivialStr(c, "seq", fmt.Sprint(c.Ops))
+	}
+	return nil
+}
+
+var propSeq = &ev.Prop[SeqCase]{Sub: "builderseq", Quick: 60000, Thorough: 2000000,
+	Gen: func(t *rapid.T) SeqCase {
+		var c SeqCase
+		n := rapid.IntRange(2, 8).Draw(t, "n")
+		codes := []int{0, 1, 2, 4, 7, 8, 11, 255, 65535}
+		for i := 0; i < n; i++ {
+			op := BuilderOp{Op: rapid.SampledFrom([]string{"type", "keytypes", "keytypes", "payload", "build", "build"}).Draw(t, "op")}
+			switch op.Op {
+			case "type":
+				op.A = rapid.SampledFrom([]int{0, 1, 2, 3, 4, 5, 6}).Draw(t, "ctype")
+			case "keytypes":
+				op.A = rapid.SampledFrom(codes).Draw(t, "sig")
+				op.B = rapid.SampledFrom(codes).Draw(t, "enc")
+			case "payload":
+				op.Payload = ev.H(model.Fill(rapid.SampledFrom([]int{0, 1, 4, 4, 5, 40, 72}).Draw(t, "plen"), uint64(i)+3))
+			}
+			c.Ops = append(c.Ops, op)
+		}
+		c.Ops = append(c.Ops, BuilderOp{Op: "build"})
+		return c
+	}, Check: checkSeq}
+
+func TestPropBuilderSeq(t *testing.T) {
+	ev.R().Floor("builderseq:reused-builder", 1000)
+	propSeq.Run(t)
+}
+
+func TestRegress(t *testing.T)      { prop.Regress(t); propBuild.Regress(t); propSeq.Regress(t) }
+func TestReplay(t *testing.T)       { _ = prop.Replay(t) || propBuild.Replay(t) || propSeq.Replay(t) }
 func TestPropParsers(t *testing.T)  { prop.Run(t) }
 func TestPropBuilders(t *testing.T) { propBuild.Run(t) }
 
